@@ -498,6 +498,8 @@ impl<T: Clone + Eq + Debug + Default> WrappedBlock<T> {
                     }));
                     lineleft -= w.saturating_sub(wpos);
                 }
+            } else {
+                self.line.push(element);
             }
         }
         Ok(())
